@@ -34,10 +34,14 @@ def labels(rng, sh, ty, op, second):
     n = prod(sh)
     if ty.endswith("p"):
         pool = list(range(NPOOL))
+        if op in ("bitwise_and", "bitwise_or", "bitwise_xor", "left_shift", "right_shift"):
+            # floats go through an integer cast: small magnitudes (negative and fractional ones included), shift counts 0..3
+            pool = [0, 2, 4, 7] if (second and "shift" in op) else [0, 2, 3, 4, 5, 6, 7, 14, 15, 18, 19]
         return [rng.choice(pool) for _ in range(n)]
     # integer labels: small values, domain restrictions per operation
     if op in ("left_shift", "right_shift"):
-        return [rng.randint(0, 6) if second else rng.randint(0, 100) for _ in range(n)]
+        lo = 0 if ty.startswith("u") else -100
+        return [rng.randint(0, 6) if second else rng.randint(lo, 100) for _ in range(n)]
     if op == "power":
         return [rng.randint(0, 4) if second else rng.randint(-5, 5) for _ in range(n)]
     if op in ("gcd", "lcm"):
@@ -66,7 +70,9 @@ def agree(case, impl, model):
 def types_for(op):
     if op in FLOAT_ONLY:
         return ["f64p", "f32p"]
-    if op in ("bitwise_and", "bitwise_or", "bitwise_xor", "left_shift", "right_shift", "gcd", "lcm"):
+    if op in ("bitwise_and", "bitwise_or", "bitwise_xor", "left_shift", "right_shift"):
+        return ["i32", "i64", "u8", "f64p", "f32p"]
+    if op in ("gcd", "lcm"):
         return ["i32", "i64", "u8"]
     if op in NEED_OPS:
         return ["i32", "f64p", "f32p"]
